@@ -209,7 +209,7 @@ def handleEnum (toks : List String) : String :=
     let variants := vs.filterMap id
     let repr := enumRepr tr style ty
     let items := (emitEnum style ty variants).map fun i => match i with
-      | .lit n text => s!"{n}=lit:{String.ofList text}"
+      | .lit n l => s!"{n}=lit:{l.text}"
       | .aliasOf n target => s!"{n}=alias:{target}"
     s!"repr={repr.name},{repr.bits},{if repr.signed then 1 else 0} " ++ " ".intercalate items
   | _, _ => "bad-op"
